@@ -45,6 +45,19 @@ class Obj:
     def __hash__(self):
         return id(self)
 
+    # arithmetic on a stand-in is what the caller says it is (fields `add`, `neg`), else unsupported
+    def __add__(self, other):
+        f = self.fields.get('add')
+        if f is None:
+            raise ShapeError(f'stand-in {self.kind} has no `+`')
+        return f(self, other)
+
+    def __neg__(self):
+        f = self.fields.get('neg')
+        if f is None:
+            raise ShapeError(f'stand-in {self.kind} has no unary `-`')
+        return f(self)
+
 
 class _Return(Exception):
     def __init__(self, value):
